@@ -383,6 +383,7 @@ func Translate(repo string, spec TransSpec) (out string, err error) {
 	}
 	sb.WriteString(t.consts20())
 	sb.WriteString(t.consts15()) // [ext:T15] error kinds
+	t.shape15()                  // [ext:T15] the shape the area's proof scripts cover (else: degrade)
 	sb.WriteString(fb.String())
 	return sb.String(), nil
 }
